@@ -67,7 +67,7 @@ CLAIMED = {
          'One-directional (valid sentences are C01). Trusts the reference recogniser (DESIGN.md appendix A). A hang is only observable as the watchdog (exit 2). One known finding (the regex engine accepts an unterminated bracket expression).', 'DESIGN.md §3 C11'),
 }
 hooks_commits = subprocess.run(['git','-C','/repo','log','--format=%H %s'],capture_output=True,text=True).stdout.splitlines()
-hook_shas = [l.split()[0] for l in hooks_commits if 'verif hooks' in l]
+hook_shas = [l.split()[0] for l in hooks_commits if 'verif hooks' in l or 'verif-hooks:' in l]
 base = json.load(open('/root/.vp/BASELINE.json'))
 checks = []
 FUZZ = {'C01','C05','C11','C12','C16','C17'}
